@@ -151,25 +151,32 @@ theorem unsubscribe_counterexample : ¬ PropUnsubscribe := by
 
 /-! ### end to end: registrations → stream → loop → subscribers -/
 
-/-- what the stream sends to helium: the snapshot of the Get, then one snapshot per changing event -/
-def streamOutput (got : List Addr) (evs : List WEv) : List (List Addr) := got :: emitted got evs
+/-- what the stream sends to helium: the snapshot of the Get, then one snapshot per watch response
+(a list of events, e.g. one etcd transaction) in which some event changed the set -/
+def streamOutput (got : List Addr) (resps : List (List WEv)) : List (List Addr) := got :: emitted got resps
 
 /-- the stream's last message is its current endpoint set (so helium's `latest` is never staler
 than the stream itself) -/
-theorem stream_last_is_current (got : List Addr) (evs : List WEv) :
-    (streamOutput got evs).getLast? = some (applyAll got evs) := emitted_last got evs
+theorem stream_last_is_current (got : List Addr) (resps : List (List WEv)) :
+    (streamOutput got resps).getLast? = some (applyAll got resps.flatten) := emitted_last got resps
+
+/-- a response whose *last* event is a no-op still pushes the new set when an earlier event changed
+it: {5001} + one transaction [put 5002, put 5001] emits {5002, 5001} -/
+example : emitted ["5001"] [[.put "5002", .put "5001"]] = [["5002", "5001"]] := by decide
 
 /-- **End-to-end convergence over a whole run.**  Registrations change (`A` before the watch, `B`
-between watch and Get, `C` afterwards); the stream sends `streamOutput`; the loop processes these
+between watch and Get, `C` afterwards, delivered in watch responses `resps` of any grouping); the
+stream sends `streamOutput`; the loop processes these
 messages as `update` events in order, interleaved in any way with ticks and Unsubscribe calls
 (`evs`, at least the first message has arrived).  If every subscriber is receiving or cancelled,
 then after the turn of the last event the loop is healthy and **every live subscriber's latest
 status has exactly the members of the registered set** — i.e. at most one turn (one push interval)
 after the last change. -/
-theorem converges_end_to_end (R0 : List Addr) (A B C : List WEv) (st : St) (evs : List Ev) (ev : Ev)
+theorem converges_end_to_end (R0 : List Addr) (A B C : List WEv) (resps : List (List WEv))
+    (hresps : resps.flatten = B ++ C) (st : St) (evs : List Ev) (ev : Ev)
     (hb : st.blocked = false) (he : st.exited = false) (h : AllReady st)
     (hnc : ∀ e ∈ evs ++ [ev], e ≠ .closed)
-    (hstream : (evs ++ [ev]).filterMap updateOf = streamOutput (applyAll R0 (A ++ B)) (B ++ C)) :
+    (hstream : (evs ++ [ev]).filterMap updateOf = streamOutput (applyAll R0 (A ++ B)) resps) :
     (run st (evs ++ [ev])).blocked = false ∧
     ∀ s' ∈ (run st (evs ++ [ev])).subs, s'.live = true →
       ∃ l, s'.inbox.getLast? = some l ∧ ∀ k, k ∈ l ↔ k ∈ applyAll R0 (A ++ B ++ C) := by
@@ -184,7 +191,7 @@ theorem converges_end_to_end (R0 : List Addr) (A B C : List WEv) (st : St) (evs 
   refine ⟨_, c4 s' hs' hl, ?_⟩
   -- the loop's latest status is the stream's last message …
   have hlatest : (turn (run st evs) ev).latest = applyAll (applyAll R0 (A ++ B)) (B ++ C) := by
-    rw [t4, h4, ← lastUpdate_append, lastUpdate_filterMap, hstream, stream_last_is_current]
+    rw [t4, h4, ← lastUpdate_append, lastUpdate_filterMap, hstream, stream_last_is_current, hresps]
     rfl
   -- … whose members are the registered set
   intro k
